@@ -14,7 +14,8 @@ EXPLANATION = (
     'method and nan_policy="omit" to rankdata, transform applies the given function to the vector form; (ROW) minmax / rank '
     '/ geodesic statistics are computed per RDM, never across the stack; (PURE) no transform writes its input (E3). The '
     'invariance clauses reduce to the operand-symmetry obligations of C03, which are re-evaluated here for the rank and '
-    'correlation measures. Tie-averaged ranks, quantile maps and the invariances themselves are NOT decided numerically.')
+    'correlation measures. Tie-averaged ranks, quantile maps and the invariances themselves are NOT decided numerically.'
+    ' Also: (API) zero-length edges of the min-max graph are part of the graph (networkx reads zero entries as missing edges); (RUNLEN) in the rank helpers of rdm.compare.')
 ASSUMPTIONS = ['scipy.stats.rankdata(nan_policy="omit") ranks the non-missing entries and keeps NaN',
                'statement order inside one block decides the ORDER obligations']
 FLOOR = 45
